@@ -31,6 +31,18 @@ META = {
         "integer contracts of BigInt::multiply (exact product) and BigInt::divide_std_dword<|x|> (a = q d + rem) are ASSUMED in the decomposition units (not yet enforced by a BV unit)",
         "loop-cut representative index: the digit loops are checked at one representative position i; every other digit cell is poisoned, so any other access would be reported",
         "termination of rejection / retry loops is not verified"]),
+    "C01": dict(level="other", explanation=("Refinement to the reference algorithm, piece by piece: (i) the real miller_loop / G2Prepared::prepare, executed for their 62+1 iterations with the step functions as uninterpreted "
+                                            "transformers and the accumulator as an exponent vector over formal line values, equal the textbook Miller loop over the bits of |x| (x from the curve definition), conjugated; "
+                                            "(ii) miller_doubling_step / miller_addition_step update the running point by the Jacobian doubling / mixed-addition relations and emit the tangent / chord line up to a factor in F_q2 "
+                                            "(exact polynomial identities over an abstract F_q2); ell multiplies by the line evaluated at P; (iii) final_exponentiation, run on discrete logs of F_q12^*, has exponent 3(q^12-1)/r exactly, "
+                                            "so every output has order dividing r; (iv) pairs with an identity member contribute nothing. That this algorithm is THE bilinear non-degenerate optimal-ate pairing is divisor theory and taken from the literature."),
+                assumptions=["the optimal-ate Miller loop for BLS12 curves followed by the final exponentiation is a bilinear, non-degenerate pairing of order r (literature) -- bilinearity e(aP,bQ) = e(P,Q)^(ab) and non-degeneracy are consequences of THAT, not decided here",
+                             "line values are non-zero and multiplicatively generic (exponent-vector view of F_q12^*); factors in F_q2 (indeed F_q6) are killed by the final exponentiation because (q^6-1) divides the exponent",
+                             "tower operations act on discrete logs as stated (C04); Jacobian relations mean the group law (C05)",
+                             "equality of pairing(generators) with the exported constant is not decided by a contract (it is a single concrete evaluation; the pinned suite's generator/bilinearity tests cover it)"]),
+    "C08": dict(level="proof", assumptions=["schedule view: step functions uninterpreted, accumulator = exponent vector over formal line values (equal vectors <=> same multiset of line evaluations with the same powers)",
+                                            "list lengths are enumerated up to 2 plain + 2 prepared pairs (quick) / 3 + 3 (thorough) with every identity pattern: BOUNDED in the list length (reported as bounded obligations); the single-pair and prepare obligations are unbounded (constant trip count executed exactly)",
+                                            "final_exponentiation is a homomorphism (exponent view, C01)"]),
     "C07": dict(level="proof", assumptions=GROUP_ASSUME + [
         "GT in the exponent view: multiply / square_cyclotomic / conjugate / inverse act as +, *2, -, - on discrete logs (C04 for the field operations; Granger-Scott squaring and conj = inverse on the cyclotomic subgroup are trusted)",
         "frobenius_map(.,k) on GT is exponentiation by q^k, and q = x (mod r) (closed fact by construction of q from x)",
